@@ -165,6 +165,33 @@ func TestEnumManyTracks(t *testing.T) {
 	}
 }
 
+var exact = ev.NewCheck("C01", "exact-size-tracks",
+	"enumeration: files whose last track body is exactly 65536, 131072, 196608 or 262144 bytes long, and one byte less / more (a writer or reader working in blocks must handle a body that ends on a block boundary), with and without running status; oracle as above",
+	nil, func(ac gen.APICase) (res ev.Result) {
+		res.Nontrivial = true
+		var s *smf.SMF
+		if p := ev.Try(func() { s = gen.BuildLib(ac) }); p != "" {
+			res.Violation = "building the value: " + p
+			return
+		}
+		res.Violation = roundTrip(s, gen.ModelOf(ac))
+		return
+	})
+
+func TestEnumExactSizeTracks(t *testing.T) {
+	exact.R.Exhaustive = true
+	i := 0
+	for _, size := range []int{65536, 131072, 196608, 262144} {
+		for _, d := range []int{-1, 0, 1} {
+			i++
+			if i%ev.Shards() != ev.Shard() {
+				continue
+			}
+			exact.One(t, gen.ExactSizeTrack(size+d, i%2 == 0))
+		}
+	}
+}
+
 // ZeroCase: WriteTo documents an error for zero tracks (asserted as "returns an error").
 func TestEnumZeroTracks(t *testing.T) {
 	if ev.Shard() != 0 {
